@@ -171,6 +171,23 @@ def check_product(case):
         err = np.abs(C - Cx)
         ratio = float(np.max(err / bound))
         out.le(name + ":C=sum_k A_ik*B_kj", ratio, 1.0, f"max entrywise error/bound over {m}x{n} entries")
+    # objects DERIVED from a sparse product (conjugate transpose, scalar multiple) and the product itself are independent
+    # values: taking the norm of one (which may canonicalise its storage) must leave the others what they were
+    okp, Cs = out.call("sparse@sparse (kept)", lambda: S(A) @ S(B))
+    if okp:
+        okd, D = out.call("quat_hermitian(sparse product)", u_().quat_hermitian, Cs)
+        oke, E = out.call("sparse product * 2.0", lambda: Cs * 2.0)
+        okf, c0 = out.call("read sparse product", to_float, Cs)
+        if okd and oke and okf:
+            d0, e0 = to_float(D), to_float(E)
+            for nm_, obj in (("conjugate transpose", D), ("scalar multiple", E), ("product", Cs)):
+                out.call(f"quat_frobenius_norm({nm_} of a sparse product)", u_().quat_frobenius_norm, obj)
+            for nm_, obj, want in (("product", Cs, c0), ("conjugate transpose", D, d0), ("scalar multiple", E, e0)):
+                okr, got = out.call(f"read {nm_} again", to_float, obj)
+                if okr:
+                    out.true(f"sparse product and derived objects:{nm_} unchanged after norms of the others were taken",
+                             got.shape == want.shape and bool(np.array_equal(got, want)), "values changed")
+            out.le("quat_hermitian(sparse product):equals conjugate transpose of the product", float(np.max(np.abs(d0 - ref.conjT(c0)))) if c0.size else 0.0, 0.0)
     # successive kernel calls whose left operands SHARE the real-part object (A, then conj(A) written as
     # (A0, -A1, -A2, -A3)): each call must answer for the planes it was given
     pA, pB = planes(A, True), planes(B, True)
